@@ -220,6 +220,10 @@ def gen_request(rng, k, node, nid, fault_rate, kinds):
     if rng.random() < 0.25:
         # honoured only when the chain contains a failing adapter of the caller
         op["adfail"] = rng.choice(["pre", "post"])
+    if rng.random() < 0.2:
+        # the connection is described (str / repr / get_address) by the thread around its request:
+        # descriptions are cached per connection object and must not touch the chain
+        op["descr"] = rng.choice(["before", "after", "both"])
     return op
 
 
@@ -587,6 +591,9 @@ class World:
             kw["data"] = data
         if op.get("raw"):
             kw["raw_response"] = True
+        d = op.get("descr")
+        if d in ("before", "both"):
+            self.describe(obj, req)
         try:
             if req["method_name"]:
                 r = getattr(obj, req["method_name"])(op["verb"], op["path"], kw)
@@ -595,7 +602,21 @@ class World:
             out = ("ok", r)
         except Exception as e:
             out = ("exc", e)
+        if d in ("after", "both"):
+            self.describe(obj, req)
         return out, (headers, params, data)
+
+    def describe(self, obj, req):
+        """str/repr/get_address of the connection (of a method caller: of its connection).  What they return
+        is not part of C17; that they leave the chains alone is (the following requests are checked)."""
+        try:
+            c = obj.http_conn if req["method_name"] else obj
+            str(c)
+            repr(c)
+            c.get_address()
+            self.stats["described"] = self.stats.get("described", 0) + 1
+        except Exception:
+            self.stats["describe_raised"] = self.stats.get("describe_raised", 0) + 1
 
 
 def _plain(x):
